@@ -2,6 +2,7 @@ package checks
 
 import (
 	"fmt"
+	"github.com/uhn/ggql/pkg/ggql"
 	"math/rand"
 
 	"verif/internal/back"
@@ -92,6 +93,7 @@ func describeVal(v interface{}) string {
 }
 
 func runC01(c *run.Ctx) {
+	defer func() { ggql.MaxResolveDepth = 100 }()
 	c.Rule = "generated (schema, data graph, document, operation name, variables) tuples executed through every resolver back-end and entry point; " +
 		"oracle: independent reference executor (data and error paths) + resolver call log; non-trivial = document has >=2 nesting levels or a list, and >=2 of " +
 		"{alias, inline fragment, named fragment, list of list, several operations, variables, directives, args, __typename}; distinct by (document text, op, back-end)"
@@ -99,6 +101,8 @@ func runC01(c *run.Ctx) {
 	c.MinNontriv = n / 10
 	for i := 0; i < n && !c.TooMany(); i++ {
 		r := c.Rand(i)
+		raiseDepth := false
+		ggql.MaxResolveDepth = 100 // the default; a case may raise it below
 		kind := back.Kinds[i%len(back.Kinds)]
 		refl := kind == "reflect" || kind == "mixed-reflect"
 		// reflection fields cannot observe arguments: no echo fields in schemas served by reflection
@@ -115,6 +119,11 @@ func runC01(c *run.Ctx) {
 		if i%16 == 7 {
 			// a deep chain through a non-null, self-referential field: valid and below MaxResolveDepth (100)
 			depth := 40 + r.Intn(50)
+			if i%32 == 7 {
+				// deeper than the default limit: the application raises the package-level limit AFTER its root exists
+				depth = 120 + r.Intn(60)
+				raiseDepth = true
+			}
 			var sels []model.Sel = []model.Sel{&model.Field{Name: "hello"}, &model.Field{Name: "__typename"}}
 			for d := 0; d < depth; d++ {
 				sels = []model.Sel{&model.Field{Name: "selfReq", Sels: sels}, &model.Field{Alias: "k", Name: "hello"}}
@@ -127,6 +136,10 @@ func runC01(c *run.Ctx) {
 			kind = "iface"
 		}
 		h, err := back.Build(kind, ec.S, ec.SDL, ec.G)
+		if raiseDepth {
+			ggql.MaxResolveDepth = 400
+			c.Bucket("doc_features", "max-resolve-depth-raised-after-newroot")
+		}
 		if err != nil {
 			c.Violation("schema-rejected", ec.replay(kind, "", map[string]interface{}{"error": err.Error()}))
 			continue
